@@ -802,13 +802,18 @@ GeneralizedTime_compare(const asn_TYPE_descriptor_t *td, const void *aptr,
             } else {
                 return 1;
             }
-        } else if(afrac_digits == 0) {
-            return -1;
-        } else if(bfrac_digits == 0) {
-            return 1;
         } else {
-            double afrac = (double)afrac_value / afrac_digits;
-            double bfrac = (double)bfrac_value / bfrac_digits;
+            /*
+             * The fractions are written with a different number of
+             * digits (.5 and .500, or none at all and .0).
+             */
+            double afrac = afrac_digits ? (double)afrac_value : 0;
+            double bfrac = bfrac_digits ? (double)bfrac_value : 0;
+            int digits;
+            for(digits = afrac_digits; digits < bfrac_digits; digits++)
+                afrac *= 10;
+            for(digits = bfrac_digits; digits < afrac_digits; digits++)
+                bfrac *= 10;
             if(afrac < bfrac) {
                 return -1;
             } else if(afrac > bfrac) {
